@@ -834,6 +834,45 @@ func authzRun(ctx context.Context, cfg *config, srv *sim.Server, useDefault bool
 			}
 		}
 	}
+	// listings through the RPC layer: the attacker lists and searches its own project with its own
+	// credentials, without page limit, in both directions: nothing of the victim may come back
+	for _, m := range methodsOf() {
+		name := string(m.Name())
+		if string(m.Parent().Name()) != "AdminService" || !(strings.HasPrefix(name, "List") || strings.HasPrefix(name, "Search")) {
+			continue
+		}
+		for _, cr := range []cred{
+			{"attacker-token", hdr(types.AuthorizationKey, types.AuthSchemeBearer+" "+A.token)},
+			{"attacker-secret", hdr(types.AuthorizationKey, types.AuthSchemeAPIKey+" "+A.secretKey)},
+		} {
+			for _, fwd := range []bool{true, false} {
+				for _, size := range []int32{0, 100000} {
+					msg := dynamicpb.NewMessage(m.Input())
+					fill(msg, A.bundle, unknown)
+					fs := msg.Descriptor().Fields()
+					if f := fs.ByName("page_size"); f != nil && f.Kind() == protoreflect.Int32Kind {
+						msg.Set(f, protoreflect.ValueOfInt32(size))
+					}
+					if f := fs.ByName("is_forward"); f != nil && f.Kind() == protoreflect.BoolKind {
+						msg.Set(f, protoreflect.ValueOfBool(fwd))
+					}
+					if f := fs.ByName("query"); f != nil && f.Kind() == protoreflect.StringKind {
+						msg.Set(f, protoreflect.ValueOfString(strings.ToLower(B.bundle.DocKey[:3])))
+					}
+					body, _ := proto.Marshal(msg)
+					c := azCase{Proc: "AdminService/" + name, Cred: cr.name, Foreign: []string{fmt.Sprintf("own-listing forward=%v pageSize=%d", fwd, size)}}
+					c.Got = rawCall(srv.Addr, m, cr, body)
+					res.Evaluations++
+					res.count("own-listing:" + c.Got.Code)
+					if c.Got.Code != "ok" {
+						res.count("own-listing-not-ok:" + name + ":" + cr.name + ":" + c.Got.Code)
+					}
+					checkVictim(c)
+					leak(c, c.Got)
+				}
+			}
+		}
+	}
 	// database layer: scoped lookups, (project, id) matrix
 	authzDBMatrix(ctx, srv, A, B, res, coqCases, useDefault)
 	return nil
@@ -954,6 +993,97 @@ func authzDBMatrix(ctx context.Context, srv *sim.Server, A, B *tenant, res *Resu
 			}
 			ris, err := db.FindRevisionInfosByPaging(ctx, types.DocRefKey{ProjectID: p.id, DocID: types.ID(o.b.DocID)}, types.Paging[int]{PageSize: 10}, false)
 			rec("FindRevisionInfosByPaging", p.n, o.owner, err == nil && len(ris) > 0)
+		}
+	}
+	// listings: whatever the page size, direction and starting point (none, an own id, a foreign id,
+	// the extremes), a listing for project p returns rows of project p only - walking an index
+	// past the project boundary is the defect class here - and both directions see the same rows
+	lrec := func(fn, variant string, p int, pid types.ID, got []types.ID) {
+		res.Evaluations++
+		res.count("dblist:" + fn)
+		foreign := 0
+		for _, g := range got {
+			if g != pid {
+				foreign++
+			}
+		}
+		if foreign > 0 {
+			res.Violations = append(res.Violations, Violation{Kind: "db-list-scope",
+				Detail: fmt.Sprintf("database.%s(project %d, %s) returned %d row(s) of other projects among %d", fn, p, variant, foreign, len(got)),
+				Replay: map[string]any{"fn": fn, "project": p, "variant": variant}, Sig: map[string]any{"fn": fn}})
+		}
+		if !skipCoq {
+			*coqCases = append(*coqCases, fmt.Sprintf("(AzList %q%%string %s %s)", fn, coqfmt.N(uint64(p)), coqfmt.N(uint64(foreign))))
+		}
+	}
+	for _, p := range projs[:2] {
+		offsets := []struct {
+			n  string
+			id types.ID
+		}{{"start", ""}, {"attacker-doc", types.ID(A.bundle.DocID)}, {"victim-doc", types.ID(B.bundle.DocID)},
+			{"lowest", types.ID("000000000000000000000000")}, {"highest", types.ID("ffffffffffffffffffffffff")}}
+		total := map[bool]int{}
+		for _, fwd := range []bool{true, false} {
+			for _, size := range []int{0, 1, 3, 100000} {
+				for _, off := range offsets {
+					dis, err := db.FindDocInfosByPaging(ctx, p.id, types.Paging[types.ID]{Offset: off.id, PageSize: size, IsForward: fwd})
+					var got []types.ID
+					for _, d := range dis {
+						got = append(got, d.ProjectID)
+					}
+					lrec("FindDocInfosByPaging", fmt.Sprintf("forward=%v pageSize=%d offset=%s", fwd, size, off.n), p.n, p.id, got)
+					if err == nil && size == 0 && off.n == "start" {
+						total[fwd] = len(dis)
+					}
+				}
+			}
+		}
+		res.Evaluations++
+		if total[true] != total[false] || total[true] == 0 {
+			res.Violations = append(res.Violations, Violation{Kind: "db-list-incomplete",
+				Detail: fmt.Sprintf("database.FindDocInfosByPaging(project %d) without limit: %d rows forward, %d backward", p.n, total[true], total[false]),
+				Replay: map[string]any{"fn": "FindDocInfosByPaging", "project": p.n}, Sig: map[string]any{"fn": "FindDocInfosByPaging"}})
+		}
+		for _, q := range []string{"", "a", strings.ToLower(A.bundle.DocKey[:3]), strings.ToLower(B.bundle.DocKey[:3])} {
+			for _, size := range []int{0, 2, 100000} {
+				sr, err := db.FindDocInfosByQuery(ctx, p.id, q, size)
+				var got []types.ID
+				if err == nil && sr != nil {
+					for _, d := range sr.Elements {
+						got = append(got, d.ProjectID)
+					}
+				}
+				lrec("FindDocInfosByQuery", fmt.Sprintf("query=%q pageSize=%d", q, size), p.n, p.id, got)
+			}
+		}
+		if sis, err := db.ListSchemaInfos(ctx, p.id); err == nil {
+			var got []types.ID
+			for _, x := range sis {
+				got = append(got, x.ProjectID)
+			}
+			lrec("ListSchemaInfos", "", p.n, p.id, got)
+		}
+		for _, nm := range []string{A.bundle.SchemaName, B.bundle.SchemaName} {
+			if sis, err := db.GetSchemaInfos(ctx, p.id, nm); err == nil {
+				var got []types.ID
+				for _, x := range sis {
+					got = append(got, x.ProjectID)
+				}
+				lrec("GetSchemaInfos", "name="+nm, p.n, p.id, got)
+			}
+		}
+		if cnt, err := db.FindAttachedClientCountsByDocIDs(ctx, p.id, []types.ID{types.ID(A.bundle.DocID), types.ID(B.bundle.DocID)}); err == nil {
+			var got []types.ID
+			for id, n := range cnt {
+				owner := A.project.ID
+				if string(id) == B.bundle.DocID {
+					owner = B.project.ID
+				}
+				if n > 0 {
+					got = append(got, owner)
+				}
+			}
+			lrec("FindAttachedClientCountsByDocIDs", "both documents", p.n, p.id, got)
 		}
 	}
 }
